@@ -182,7 +182,7 @@ func structToMap(data any, onPath map[uintptr]bool) map[string]any {
 
 		// Recursively convert nested structs (a nil pointer stays nil: there is nothing to convert,
 		// and an empty map would make it look like a value)
-		if fv.Kind() == reflect.Struct || (fv.Kind() == reflect.Ptr && !fv.IsNil() && fv.Type().Elem().Kind() == reflect.Struct) {
+		if (fv.Kind() == reflect.Struct || (fv.Kind() == reflect.Ptr && !fv.IsNil() && fv.Type().Elem().Kind() == reflect.Struct)) && hasExportedFields(fv.Type()) {
 			fieldValue = structToMap(fieldValue, onPath)
 		}
 
@@ -190,6 +190,24 @@ func structToMap(data any, onPath map[uintptr]bool) map[string]any {
 	}
 	addPromotedFields(result, rv, onPath)
 	return result
+}
+
+// hasExportedFields reports whether a struct type (or pointer to one) has anything a template
+// could address. A type without exported fields (time.Time, big.Int) is a value, not a record:
+// converted to a map it would be an empty one.
+func hasExportedFields(t reflect.Type) bool {
+	for t.Kind() == reflect.Ptr {
+		t = t.Elem()
+	}
+	if t.Kind() != reflect.Struct {
+		return false
+	}
+	for i := range t.NumField() {
+		if t.Field(i).IsExported() {
+			return true
+		}
+	}
+	return false
 }
 
 // addPromotedFields adds the exported fields that embedded structs promote into rv (what a Go
@@ -216,7 +234,7 @@ func addPromotedFields(result map[string]any, rv reflect.Value, onPath map[uintp
 			continue
 		}
 		fieldValue := fv.Interface()
-		if fv.Kind() == reflect.Struct || (fv.Kind() == reflect.Ptr && !fv.IsNil() && fv.Type().Elem().Kind() == reflect.Struct) {
+		if (fv.Kind() == reflect.Struct || (fv.Kind() == reflect.Ptr && !fv.IsNil() && fv.Type().Elem().Kind() == reflect.Struct)) && hasExportedFields(fv.Type()) {
 			fieldValue = structToMap(fieldValue, onPath)
 		}
 		result[tagName] = fieldValue
@@ -295,7 +313,7 @@ func PopulateStructFields(m map[string]any, data any) {
 		fieldValue := fv.Interface()
 
 		// Convert nested structs to maps so they can be accessed with JSON tag paths
-		if fv.Kind() == reflect.Struct || (fv.Kind() == reflect.Ptr && !fv.IsNil() && fv.Type().Elem().Kind() == reflect.Struct) {
+		if (fv.Kind() == reflect.Struct || (fv.Kind() == reflect.Ptr && !fv.IsNil() && fv.Type().Elem().Kind() == reflect.Struct)) && hasExportedFields(fv.Type()) {
 			fieldValue = StructToMap(fieldValue)
 		}
 
